@@ -34,7 +34,9 @@ VarViol(op, v) ==
              (IF wf /\ g.pkt # v.exp THEN {"C05.Fields"} ELSE {})
           \* the same authenticated bytes iv || unmasked header || auth-data (also: the sender-side authenticated_data()
           \* of whatever packet was decoded is that prefix of its layout),
-          \cup (IF (wf /\ g.aad # v.eaad) \/ g.aadv # g.aadi THEN {"C05.AuthData"} ELSE {})
+          \* (and: a packet returned without a record comes with authenticated bytes that are exactly its own - bytes after the key of
+          \*  a handshake are a record or the datagram is rejected, they are not silently dropped)
+          \cup (IF (wf /\ g.aad # v.eaad) \/ g.aadv # g.aadi \/ g.dropped THEN {"C05.AuthData"} ELSE {})
           \* and the datagram is the discv5.1 layout: the real encoder's bytes for the decoded packet are those of the
           \* independent encoder (for a well-formed case: the very datagram that was decoded)
           \cup (IF (wf /\ g.enc # v.x) \/ g.enc # g.ind THEN {"C05.Layout"} ELSE {})
